@@ -198,6 +198,9 @@ def add_deaths(traces, info):
                 traces[k].append({"ev": "ProcDied", "scn": k[0], "pl": k[1], "tr": k[2], "ep": last.get("ep", 1), "seq": last["seq"] + 1,
                                   "rc": dd["rc"], "tail": dd["tail"][-600:], "_c": last["_c"]})
                 break
+        else:
+            # nothing was recorded before the death: it cannot be attributed to the engine (most likely the harness itself)
+            info.setdefault("errors", []).append("child process died in scenario %s before recording anything (rc %s): %s" % (dd["scn"], dd["rc"], dd["tail"][-400:]))
     return traces
 
 
